@@ -102,7 +102,11 @@ func floats(r *engine.Rec) {
 		step = 1
 	}
 	for e := -324; e <= 308; e += step {
-		for _, m := range []float64{1, 1.5, 9.999999999999999} {
+		mants := []float64{1, 1.5, 9.999999999999999}
+		if r.Tier == "thorough" {
+			mants = []float64{1, 1.5, 2, 2.5, 4.000000000000001, 7.25, 9.999999999999999, 1.0000000000000002, 5e-1}
+		}
+		for _, m := range mants {
 			for _, sgn := range []float64{1, -1} {
 				f := sgn * m * math.Pow(10, float64(e))
 				if math.IsInf(f, 0) || f == 0 {
@@ -169,6 +173,23 @@ func integersRunesStrings(r *engine.Rec) {
 			strs = append(strs, a+b)
 		}
 	}
+	if r.Tier == "thorough" {
+		base := append([]string(nil), strs...)
+		for _, a := range alpha {
+			for _, b := range base {
+				if len([]rune(b)) == 2 || len(b) >= 2 {
+					strs = append(strs, a+b)
+				}
+			}
+		}
+		for c := rune(0x300); c <= 0x2fff; c += 7 {
+			runes = append(runes, c)
+		}
+		for _, c := range runes[len(runes)-1700:] {
+			n++
+			leafDocs(r, "runes", " (rune)", c, false)
+		}
+	}
 	for _, s := range strs {
 		n++
 		leafDocs(r, "strings", " (string)", s, true)
@@ -232,6 +253,9 @@ func shapes(r *engine.Rec) {
 		}
 		// sizes up to 40 (Queues stay within their default capacity: larger ones fall under C05)
 		maxSize := 40
+		if r.Tier == "thorough" {
+			maxSize = 120
+		}
 		if k == "Queue" {
 			maxSize = 16
 		}
